@@ -263,6 +263,25 @@ def k3_applies(z):
     return z.end[0] == 'M' and not (0 <= s < 86400) or (z.start[0] == 'M' and not (0 <= z.stime < 86400))
 
 
+def k3_explains(z, u):
+    """Is a wrong answer at the naive UTC instant u what K3 produces?  The finding moves one transition (the one whose rule
+    has the out-of-range time of day) onto a neighbouring week: only instants within eight days of a true transition of an
+    affected rule can differ."""
+    if not k3_applies(z):
+        return False
+    import datetime as D
+    saving = z.dstoff - z.stdoff
+    start_hit = z.start[0] == 'M' and not (0 <= z.stime < 86400)
+    end_hit = z.end[0] == 'M' and not (0 <= z.etime - saving < 86400)
+    for y in (u.year - 1, u.year, u.year + 1):
+        if not 1 <= y <= 9999:
+            continue
+        ts, te = z.transitions(y)
+        if (start_hit and abs(u - ts) <= D.timedelta(days=8)) or (end_hit and abs(u - te) <= D.timedelta(days=8)):
+            return True
+    return False
+
+
 def tzrange_equivalent(tz, relativedelta, z):
     """tzrange built through the documented relativedelta recipe (start in standard time, end in standard time)."""
     def rd(rule, seconds):
